@@ -30,7 +30,7 @@ def linearizability(chk, sd, binp_unused):
     binp = vlib.go_build("linsim", "internal/zz_verif/linsim", ["linsim/main.go"], sd)
     cs, r = cases.enumerate_cases("GenLin", "GenLin.cfg", env={"TIER": tier})
     chk.add_tlc("concurrent admin/traffic cases (spec/Lin.tla)", r)
-    reps = 40 if tier == "thorough" else 6
+    reps = 60 if tier == "thorough" else 10
     tp = cases.execute(binp, cs, sd, "lin", timeout=3000, extra_args=[str(reps)])
     st = json.load(open(tp + ".ok"))
     chk.cov["concurrent_histories_run"] = st["histories"]
@@ -42,7 +42,7 @@ def linearizability(chk, sd, binp_unused):
     def sig(clause, e):
         kinds = sorted({o["k"] + ":" + (o["name"] or o["s"]) for o in e["o"]["ops"] if o["k"] not in ("req", "list")})
         return {"clause": clause, "class": "concurrent", "strategy": e["c"]["strategy"], "ops": ",".join(kinds)}
-    cases.judge(chk, "ObsLinTrace", "ObsLinTrace.cfg", tp, sig, "lin", timeout=3000)
+    cases.judge(chk, "ObsLinTrace", "ObsLinTrace.cfg", tp, sig, "lin", timeout=3000, parts=12)
     with open(tp) as fh:
         chk.sample({"concurrent_history": json.loads(fh.readline())})
 
